@@ -36,6 +36,9 @@ _P = {}
 def pats():
     if not _P:
         from pyoda_time.text import InstantPattern, LocalDatePattern, LocalDateTimePattern, LocalTimePattern, OffsetPattern
+        _P.update(t_var=LocalTimePattern.variable_precision_iso, t_hm=LocalTimePattern.hour_minute_iso, t_h=LocalTimePattern.hour_iso,
+                  ldt_variable_precision_iso=LocalDateTimePattern.variable_precision_iso, ldt_date_hour_minute_iso=LocalDateTimePattern.date_hour_minute_iso,
+                  ldt_date_hour_iso=LocalDateTimePattern.date_hour_iso)
         _P.update(date=LocalDatePattern.iso, t_ext=LocalTimePattern.extended_iso, t_long=LocalTimePattern.long_extended_iso, t_gen=LocalTimePattern.general_iso,
                   ldt_general_iso=LocalDateTimePattern.general_iso, ldt_extended_iso=LocalDateTimePattern.extended_iso, ldt_bcl_round_trip=LocalDateTimePattern.bcl_round_trip,
                   inst_general=InstantPattern.general, inst_extended_iso=InstantPattern.extended_iso,
@@ -96,6 +99,20 @@ def check_time(ctx, sec, ns):
             continue  # long form requires nine digits; stdlib writes six
         if not r.success or r.value != LocalTime.from_time(t):
             V(ctx, f"time-parse-stdlib-text:{nm}", f"{nm}.parse({iso!r}) -> success={r.success}", case, r.success)
+    # variable-precision form: the shortest ISO text that still denotes exactly this value
+    sv = P["t_var"].format(lt)
+    tot = sec * 10**9 + ns
+    want_shape = r"\d{2}" if tot % (3600 * 10**9) == 0 else (r"\d{2}:\d{2}" if tot % (60 * 10**9) == 0 else (r"\d{2}:\d{2}:\d{2}" if ns == 0 else r"\d{2}:\d{2}:\d{2}\.\d{1,9}"))
+    if not re.fullmatch(want_shape, sv):
+        V(ctx, "time-variable-precision-shape", f"variable_precision_iso.format({sec}s+{ns}ns) = {sv!r}; the shortest exact ISO form has shape {want_shape}", case, sv)
+    rv = P["t_var"].parse(sv)
+    if not rv.success or rv.value != lt:
+        V(ctx, "time-own-roundtrip:t_var", f"variable_precision_iso does not round-trip {sec}s+{ns}ns via {sv!r}", case)
+    if tot % (60 * 10**9) == 0:
+        for nm in ("t_hm",) + (("t_h",) if tot % (3600 * 10**9) == 0 else ()):
+            tx = P[nm].format(lt); r2 = P[nm].parse(tx)
+            if not r2.success or r2.value != lt or not re.fullmatch(r"\d{2}(:\d{2})?", tx):
+                V(ctx, f"time-own-roundtrip:{nm}", f"{nm} does not round-trip {sec}s via {tx!r}", case)
     # own round trip to the nanosecond
     for nm in ("t_ext", "t_long"):
         r = P[nm].parse(P[nm].format(lt))
@@ -214,11 +231,11 @@ def run(ctx, shard):
         ctx.sample({"kind": "offset", "minutes": -345})
         return
     n = shard["n"]
-    fr = [0, 1, 10, 100, 1000, 123000000, 999999999, 500000000, 120000000, 100, 999999000, 1000000]
+    fr = [0, 1, 10, 50, 99, 100, 1000, 123000000, 999999999, 500000000, 120000000, 100, 999999000, 1000000, 65000, 64999]
     for j in range(n):
         ns = rng.choice(fr) if j % 2 == 0 else rng.randrange(10**9)
         if j % 5 == 0: ns = ns // 1000 * 1000
-        sec = rng.choice([0, 86399, 3600, 43200]) if j % 9 == 0 else rng.randrange(86400)
+        sec = rng.choice([0, 86399, 3600, 43200]) if j % 9 == 0 else (rng.randrange(1440) * 60 if j % 4 == 1 else rng.randrange(86400))
         check_time(ctx, sec, ns); ctx.count("time")
     edges = [0, 1, TOTAL_US - 1, TOTAL_US - 10**6, 365 * 86400 * 10**6 - 1, 365 * 86400 * 10**6]
     def pick(j):
